@@ -606,7 +606,7 @@ func (x *Exec) intrinsic(st *State, fr *Frame, resInstr ssa.Instruction, name st
 		T := types.NewPointer(types.NewNamed(types.NewTypeName(0, nil, "errorString", nil), types.NewStruct(nil, nil), nil))
 		_ = T
 		tag := intLit(int64(x.typeIDByName("*errors.errorString")))
-		ev := &Event{Kind: "call", Name: name, Args: args, Index: len(st.events)}
+		ev := &Event{Kind: "call", Name: name, Callee: x.funcValue(fn, nil), Args: args, Index: len(st.events)}
 		rv := IfaceV{Tag: tag, Val: ref, Typ: resT(0)}
 		ev.Results = []Value{rv}
 		st.events = append(st.events, ev)
@@ -633,7 +633,7 @@ func (x *Exec) intrinsic(st *State, fr *Frame, resInstr ssa.Instruction, name st
 		if _, ok := st.lets["$now0"]; !ok {
 			st.lets["$now0"] = t
 		}
-		st.events = append(st.events, &Event{Kind: "call", Name: "timex.Now", Results: []Value{t}, Index: len(st.events)})
+		st.events = append(st.events, &Event{Kind: "call", Name: "timex.Now", Callee: x.funcValue(fn, nil), Results: []Value{t}, Index: len(st.events)})
 		set(t)
 		return nil, true
 	case name == "fmt.Sprintf", name == "fmt.Sprint":
